@@ -293,6 +293,11 @@ func (e *emitter) Header(
 }
 
 func (e *emitter) Message(data []byte, streamEnded bool) error {
+	if data == nil && streamEnded {
+		// The adapter reports an END_STREAM that carries no message as Message(nil, true). That is
+		// not a message: only the end of the stream is forwarded.
+		return e.sink.Data(nil, true)
+	}
 	// Applies compression to `data` depending on `adapter`'s state.
 	if e.adapter.compressed {
 		switch e.adapter.encoding {
